@@ -42,11 +42,12 @@ Dscps == {0, 1, 63}
 Chars(s) == s     \* names are sequences of one-character strings
 PnNone == <<>>
 PnCurl == <<"c","u","r","l">>
+PnCURL == <<"C","U","R","L">>          \* process names are compared byte for byte: "CURL" is another process than "curl"
 Pn15 == <<"0","1","2","3","4","5","6","7","8","9","a","b","c","d","e">>
 Pn16 == Pn15 \o <<"f">>
 Pn16b == Pn15 \o <<"g">>
 Pn17 == Pn16 \o <<"X">>
-PktPnames == {PnNone, PnCurl, Pn15, Pn16, Pn16b}
+PktPnames == {PnNone, PnCurl, PnCURL, Pn15, Pn16, Pn16b}
 DomNone == <<>>
 DomAB == <<"a",".","b">>
 DomXAB == <<"x",".","a",".","b">>
@@ -73,7 +74,7 @@ L4Vals == { <<"tcp">>, <<"udp">>, <<"tcp","udp">> }
 IpvVals == { <<4>>, <<6>>, <<4,6>> }
 MacVals == { <<Mac1>>, <<Mac2>>, <<Mac1, Mac2>> }
 DscpVals == { <<0>>, <<63>>, <<1, 63>> }
-PnameVals == { <<PnCurl>>, <<Pn16>>, <<Pn17>>, <<Pn15>>, <<PnCurl, Pn16b>> }
+PnameVals == { <<PnCurl>>, <<Pn16>>, <<Pn17>>, <<Pn15>>, <<PnCurl, Pn16b>>, <<PnCURL, PnCurl>> }
 \* geodata (geosite.dat written by the harness): SHOP = suffix a.b ; full ba.b @ads ; keyword x. @ads      OTHER = suffix b
 \* a value geosite:code expands to all entries of the code, geosite:code@attr to the entries carrying the attribute
 GsShop == <<"s","h","o","p">>
